@@ -141,7 +141,8 @@ def rule_monotone_flags(db, chk, cfg, rule="MONO"):
                 # the minority value is the offender
                 minority = sorted(vals.items(), key=lambda kv: len(kv[1]))[0]
                 x = minority[1][0]
-                chk.violation(rule, f.qual.split("<")[0], re.sub(r'\s+', '', canon(x))[:40],
+                # keyed by what is stored (not by the statement's spelling, which a refactoring may change)
+                chk.violation(rule, f.qual.split("<")[0], "flags=%s" % minority[0],
                               "keep/remove flags are not monotone in %s: %s is stored at %s although the function otherwise only stores %s; "
                               "a vertex flagged earlier (an end point set by the caller) can be un-flagged again"
                               % (f.qual, minority[0], where(x), [v for v in vals if v != minority[0]]), where(x), cfg=cfg)
